@@ -3328,6 +3328,11 @@ class ISLaSolver:
                             existential_formula,
                         )
                         break
+                    except TimeoutError:
+                        # The unsatisfiability check is inconclusive; we keep the
+                        # state. The timeout of the check must not be mistaken for
+                        # a timeout of the solver itself.
+                        pass
                     finally:
                         self.start_time = old_start_time
                         self.timeout_seconds = old_timeout_seconds
